@@ -188,3 +188,23 @@ pub proof fn lemma_loop_point(a: BaseRegLan, r: LoopRange, k: nat, w: Seq<u32>)
         assert(n == k);
     }
 }
+
+pub proof fn lemma_mul_nonzero(r: LoopRange, s: LoopRange, prod: LoopRange)
+    requires lr_wf(r), lr_wf(s), !lr_is_zero(r), !lr_is_zero(s), forall|n: int| lr_has(prod, n) == in_mul_interval(r, s, n),
+    ensures !lr_is_zero(prod),
+{
+    let lo = lr_mul_lo(r, s);
+    assert(lo >= 0) by (nonlinear_arith) requires lo == r.0 * s.0, r.0 >= 0, s.0 >= 0;
+    if r.1.is_none() || s.1.is_none() {
+        assert(in_mul_interval(r, s, lo + 1));
+        assert(lr_has(prod, lo + 1));
+    } else {
+        let b = r.1.unwrap() as int;
+        let d = s.1.unwrap() as int;
+        assert(b >= 1 && d >= 1);
+        assert(b * d >= 1) by (nonlinear_arith) requires b >= 1, d >= 1;
+        assert(lo <= b * d) by (nonlinear_arith) requires lo == r.0 * s.0, 0 <= r.0 <= b, 0 <= s.0 <= d;
+        assert(in_mul_interval(r, s, b * d));
+        assert(lr_has(prod, b * d));
+    }
+}
